@@ -201,6 +201,8 @@ def transform_case(case, tr, rng_params):
         perm = tr[1]
         new_idx = idx.transpose(perm)
         c2['periodic'] = sorted(perm.index(a) for a in case.get('periodic', []))
+        # half of the relabelled inputs are handed over as non-C-contiguous arrays (what img.T is)
+        c2['layout'] = 'F' if len(case['k']) % 2 == 0 else 'C'
     elif kind == 'flip':
         ax = tr[1]
         new_idx = np.flip(idx, axis=ax)
